@@ -28,7 +28,7 @@ MATS = ["NeoHooke", "NeoHookeCompressible", "tt:yeoh", "tt:ogden", "jax:mooney_r
         "tt:miehe_goektepe_lulei", "LinearElasticLargeStrain"]
 AXIS = ["internal/3d", "internal/planestrain", "internal/axi", "internal/mixed", "internal/mixed-axi", "internal/nearlyinc", "internal/nearlyinc-axi",
         "internal/mini", "bodyforce/3d", "bodyforce/planestrain", "bodyforce/axi", "bodyforce/mixed", "gravity", "pointload", "pointload/axi", "pressure/3d",
-        "pressure/planestrain", "pressure/axi", "mass", "mass/mixed", "mpc", "contact"]
+        "pressure/planestrain", "pressure/axi", "mass", "mass/mixed", "mass/axi", "mpc", "contact"]
 
 
 def kinds_for(ax):
@@ -271,10 +271,12 @@ def check(ax, case, rec):
     if ax.startswith("mass"):
         if kind == "mixed":
             fc = fem.FieldsMixed(region, n=2) if spec["kind"] in ("hexahedron", "quad") else fem.FieldsMixed(region, n=3)
+        elif axi:
+            fc = fem.FieldContainer([fem.FieldAxisymmetric(region, dim=2)])
         else:
             fc = fem.FieldContainer([fem.Field(region, dim=dim)])
         rho = case["density"]
-        um = fem.NeoHooke(mu=1.0, bulk=2.0) if dim == 3 else fem.constitution.LinearElasticPlaneStrain(E=1.0, nu=0.3)
+        um = fem.NeoHooke(mu=1.0, bulk=2.0) if dim == 3 or axi else fem.constitution.LinearElasticPlaneStrain(E=1.0, nu=0.3)
         if kind == "mixed":
             um = fem.ThreeFieldVariation(fem.NeoHooke(mu=1.0, bulk=2.0)) if len(fc.fields) == 3 else None
         if um is None:
@@ -285,7 +287,7 @@ def check(ax, case, rec):
         M = np.asarray(M.toarray())
         n0 = fc.fields[0].values.size
         rec.require("mass-shape", M.shape == (n0, n0), M.shape)
-        V = volume_of(region)
+        V = volume_of(region, fc.fields[0] if axi else None)  # axisymmetric: mass of the revolved body
         rec.nontrivial = mesh.ncells >= 2
         rec.close("mass-symmetric", float(np.abs(M - M.T).max()) / float(np.abs(M).max()), 1e-14)
         w = np.linalg.eigvalsh(0.5 * (M + M.T))
